@@ -21,6 +21,10 @@ def reported_lost_once():
     return True
 
 
+def no_pending_error(L):
+    return True
+
+
 def _env(h):
     it, ctx = h.it, h.ctx
     log = []
@@ -166,14 +170,16 @@ def _env(h):
 
     it.models[id(iteration_delivers_chunk_once)] = ModelFn("iteration_delivers_chunk_once", boundary)
     it.models[id(reported_lost_once)] = ModelFn("reported_lost_once", at_exit)
+    it.models[id(no_pending_error)] = ModelFn("no_pending_error", lambda it2, a, k: a[0].d.get("error") is None)
     return tr
 
 
 @contract("mysensors.gateway_tcp:TCPTransport.run", props=["C19", "C20"])
 class TcpReaderRun:
     configs = [{"made_fails": False}, {"made_fails": True}]
-    # (`error` is only assigned on the way out of the loop: at the loop head it is still None)
-    loops = {("mysensors.gateway_tcp", "TCPTransport.run", 0): Loop(lambda L, old, G: iteration_delivers_chunk_once() and L.error is None, kinds={"error": "keep"})}
+    # (`error`, where the loop keeps one, is only assigned on the way out: at the loop head it is still None.)
+    # The key is a pattern: the read loop may live in `run` or in a helper method of the class.
+    loops = {("mysensors.gateway_tcp", "TCPTransport.*", 0): Loop(lambda L, old, G: iteration_delivers_chunk_once() and no_pending_error(L), kinds={"error": "keep"})}
 
     def setup(h):
         return [_env(h)], {}
